@@ -3,6 +3,8 @@ package engines
 import (
 	"fmt"
 	"os"
+	"reflect"
+	"regexp"
 	"unicode"
 	"sort"
 	"strconv"
@@ -18,9 +20,12 @@ import (
 // Engine draw — C01 / C13 / C09: draw histories on a real terminfo screen over a FakeTty.
 //
 // line:  draw <entry> <tc> <w> <h> <op>; <op>; …
-//   entry = name of a built-in terminal description, tc = 1 direct colour on (standard RGB strings added if the
+//   entry = name of a built-in terminal description (`name%pad=<hex of a padding form>`: the same description with every
+//   `$<…>` of its strings rewritten to that padding form, e.g. `10/`, `2.5*`: judged by the oracle only), tc = 1 direct colour on (standard RGB strings added if the
 //   entry has none, as LookupTerminfo does for COLORTERM=truecolor) / 0 off (TCELL_TRUECOLOR=disable)
-//   ops:  S x y main comb style | F r style | Y style (SetStyle) | C x y (ShowCursor) | K cs cc (SetCursorStyle) |
+//   ops:  S x y main comb style (SetContent; comb `-` = nil slice, `=` = empty NON-nil slice, else r,r,…) |
+//         SC x y style r [r…] (Screen.SetCell: primary rune then combining runes) |
+//         F r style | Y style (SetStyle) | C x y (ShowCursor) | K cs cc (SetCursorStyle) |
 //         L x y w h 0|1 (LockRegion) | W (Show) | N (Sync) | RQ w h (window resized, no notification) |
 //         RN w h (window resized, notification delivered) | X (something else scribbles over the terminal)
 // reply: for every op that made the screen write: "<op#>:<hex of the bytes written>", space separated
@@ -177,6 +182,41 @@ func drawTi(name string, tc bool) *terminfo.Terminfo {
 		ti.SetFgBgRGB = "\x1b[38;2;%p1%d;%p2%d;%p3%d;48;2;%p4%d;%p5%d;%p6%dm"
 	}
 	return &ti
+}
+
+// padSpecRe: a well-formed terminfo(5) padding specification: `$<` number with at most one decimal place, then the
+// flags `*` (proportional) and `/` (mandatory) in either order, `>`.
+var padSpecRe = regexp.MustCompile(`\$<[0-9]+(\.[0-9])?(\*/?|/\*?)?>`)
+var padAnyRe = regexp.MustCompile(`\$<[^>]*>`)
+
+// drawPadForms: the padding forms terminfo(5) allows (the built-in database itself only has plain integers and one `/`)
+var drawPadForms = []string{"5", "50", "200", "2.5", "0.5", "10*", "10/", "10*/", "10/*", "2.5*", "2.5/", "1.5*/"}
+
+// withPadForm: a copy of the description in which every padding specification carries the given form
+func withPadForm(ti *terminfo.Terminfo, form string) *terminfo.Terminfo {
+	c := *ti
+	v := reflect.ValueOf(&c).Elem()
+	for i := 0; i < v.NumField(); i++ {
+		if f := v.Field(i); f.Kind() == reflect.String && f.CanSet() && strings.Contains(f.String(), "$<") {
+			f.SetString(padAnyRe.ReplaceAllLiteralString(f.String(), "$<"+form+">"))
+		}
+	}
+	return &c
+}
+
+// paddedEcmaEntries: the ECMA entries with a padding specification in any capability other than the key strings
+func paddedEcmaEntries() []string {
+	var out []string
+	for _, name := range ecmaEntries() {
+		v := reflect.ValueOf(*terminfo.VerifEntries()[name])
+		for i := 0; i < v.NumField(); i++ {
+			if f := v.Field(i); f.Kind() == reflect.String && !strings.HasPrefix(v.Type().Field(i).Name, "Key") && padAnyRe.MatchString(f.String()) {
+				out = append(out, name)
+				break
+			}
+		}
+	}
+	return out
 }
 
 func cornerTrick(ti *terminfo.Terminfo) bool {
@@ -420,9 +460,16 @@ func execDraw(line string) (res h.Result) {
 		name, charset = name[:i], name[i+1:]
 	}
 	utf8loc := charset == "UTF-8"
+	padForm := ""
+	if i := strings.Index(name, "%pad="); i >= 0 {
+		name, padForm = name[:i], string(h.Unhex(name[i+5:]))
+	}
 	ti := drawTi(name, tc)
 	if ti == nil {
 		return h.Result{Obs: "no-entry"}
+	}
+	if padForm != "" {
+		ti = withPadForm(ti, padForm)
 	}
 	os.Setenv("LC_ALL", "en_US."+charset)
 	os.Setenv("TCELL_ALTSCREEN", "")
@@ -450,11 +497,24 @@ func execDraw(line string) (res h.Result) {
 	var obs []string
 	emuOps := []string{}
 	block := 0
+	var written [][2]string // (tag, bytes) of everything the screen wrote: Init, every op, Fini
+	appDollar := false      // the application itself supplied a '$' (cell content, hyperlink): see padding-residue below
+	supplied := func(st StyleF, rs ...int) {
+		for _, r := range rs {
+			if r == '$' {
+				appDollar = true
+			}
+		}
+		if strings.Contains(st.Url, "$") || strings.Contains(st.UrlId, "$") {
+			appDollar = true
+		}
+	}
 	record := func(tag string, bs [][]byte) bool {
 		b := joinBlocks(bs)
 		if len(b) == 0 {
 			return false
 		}
+		written = append(written, [2]string{tag, string(b)})
 		obs = append(obs, tag+":"+h.Hex(b))
 		emuOps = append(emuOps, "W "+h.Hex(b))
 		block++
@@ -591,9 +651,41 @@ func execDraw(line string) (res h.Result) {
 		lastDraw = false
 		tag := strconv.Itoa(i)
 		switch t[0] {
-		case "S":
-			x, y, m, comb, st := h.Atoi(t[1]), h.Atoi(t[2]), h.Atoi(t[3]), h.IntList(t[4]), ParseStyleF(t[5])
-			scr.SetContent(x, y, rune(m), toRunes(comb), st.ToStyle())
+		case "S", "SC":
+			var x, y, m int
+			var comb []int
+			var st StyleF
+			if t[0] == "SC" {
+				// Screen.SetCell(x, y, style, r…): the public variadic route (it hands SetContent the tail of its own
+				// argument slice: an empty NON-nil combining slice when there is a single rune)
+				if len(t) < 5 {
+					obs = append(obs, "bad-op")
+					continue
+				}
+				x, y, st = h.Atoi(t[1]), h.Atoi(t[2]), ParseStyleF(t[3])
+				var rs []rune
+				for _, f := range t[4:] {
+					rs = append(rs, rune(h.Atoi(f)))
+				}
+				m = int(rs[0])
+				for _, c := range rs[1:] {
+					comb = append(comb, int(c))
+				}
+				scr.SetCell(x, y, st.ToStyle(), rs...)
+				tags["setcell"] = true
+			} else {
+				x, y, m, st = h.Atoi(t[1]), h.Atoi(t[2]), h.Atoi(t[3]), ParseStyleF(t[5])
+				cr := combRunes(t[4])
+				comb = fromRunes(cr)
+				if len(comb) == 0 {
+					comb = nil
+				}
+				if cr != nil && len(cr) == 0 {
+					tags["comb-empty-non-nil"] = true
+				}
+				scr.SetContent(x, y, rune(m), cr, st.ToStyle())
+			}
+			supplied(st, append([]int{m}, comb...)...)
 			if inr(x, y) {
 				c := get(x, y)
 				if st.Fg == ColorNoneU {
@@ -631,6 +723,7 @@ func execDraw(line string) (res h.Result) {
 			}
 		case "F":
 			r, st := h.Atoi(t[1]), ParseStyleF(t[2])
+			supplied(st, r)
 			scr.Fill(rune(r), st.ToStyle())
 			for y := 0; y < sh.h; y++ {
 				for x := 0; x < sh.w; x++ {
@@ -648,6 +741,7 @@ func execDraw(line string) (res h.Result) {
 			markAllChanged()
 		case "Y":
 			st := ParseStyleF(t[1])
+			supplied(st)
 			scr.SetStyle(st.ToStyle())
 			sh.style = st
 		case "C":
@@ -989,7 +1083,29 @@ func execDraw(line string) (res h.Result) {
 	scr.Fini()
 	<-done
 	record("z", tty.TakeWrites())
+	// C09 "no stray parameter-language residue": padding specifications are instructions to the output routine (delays),
+	// never bytes for the terminal; a tokenizer accepts `$<10/>` as five printable characters, so this is judged on the
+	// bytes themselves, over everything the screen wrote (Init, every draw, Sync, Fini).  Sound because the application
+	// supplied no '$' in this case (otherwise the same bytes could be legitimate cell content: not judged).
+	if appDollar {
+		tags["padding-residue-not-judged"] = true
+	} else {
+		for _, wb := range written {
+			if m := padSpecRe.FindString(wb[1]); m != "" && len(res.Findings) < 6 {
+				res.Findings = append(res.Findings, h.Finding{Class: "padding-residue", Msg: fmt.Sprintf(
+					"the bytes written by op %q contain the terminfo padding specification %q (entry %s%s): it was sent to the terminal instead of being consumed by the output routine",
+					wb[0], m, name, map[bool]string{true: ", padding form " + padForm, false: ""}[padForm != ""])})
+				break
+			}
+		}
+		if strings.Contains(ti.Clear+ti.AttrOff+ti.SetCursor+ti.EnterAcs+ti.ExitAcs+ti.Bold+ti.Reverse+ti.CursorBack1, "$<") {
+			tags["padding-entry-judged"] = true
+		}
+	}
 	res.Obs = strings.Join(obs, " ")
+	if padForm != "" {
+		res.Obs = "SKIP description with rewritten padding forms: judged by the oracle only"
+	}
 	if !utf8loc {
 		res.Obs = "SKIP 8-bit locale: judged by the oracle only (the byte-level model is instantiated for UTF-8)"
 	}
@@ -1101,7 +1217,34 @@ func fitOps(name string, cols map[uint64]bool) []string {
 // colours, and with a hyperlink (with and without id) followed by a plain cell, then Shows twice.  A slip in one
 // per-entry capability string (or in the code that picks it) is then judged by the emulator oracle on a concrete
 // input, in every tier, whatever the seed.
+// genDrawPadding: fixed cases (every tier, every seed) on the ECMA entries that carry padding in a capability the draw /
+// engage / disengage paths emit (enumerated from the database: vt100, vt102, vt220, vt400, vt420, wy99…): the entry as it
+// is AND with every padding form of terminfo(5) (drawPadForms: integer, one decimal, `*`, `/`, both) — attributes,
+// colours, cursor motion, a line-drawing rune (ACS in the 8-bit locale), Show, Sync (clear), Show, Fini.
+func genDrawPadding(g *h.Gen) {
+	forms := append([]string{""}, drawPadForms...)
+	for fi, form := range forms { // the built-in descriptions as they are first, then the rewritten forms
+		for ei, name := range paddedEcmaEntries() {
+			if form != "" && (fi+ei)%3 != 0 && !strings.Contains(form, []string{"/", "*", "."}[ei%3]) {
+				continue // every form on a third of the entries in rotation; `/`, `*`, decimal forms on one more entry each
+			}
+			tok := name
+			if form != "" {
+				tok += "%pad=" + h.Hex([]byte(form))
+			}
+			for _, cs := range []string{"", "@ISO8859-1"} {
+				ops := []string{
+					"S 0 0 97 - " + StyleF{Attrs: 1}.String(), "S 1 0 98 - " + StyleF{Attrs: 4}.String(), "S 2 0 9472 - " + StyleF{Attrs: 2}.String(),
+					"S 3 1 99 - " + StyleF{Attrs: 16, UlStyle: 1}.String(), "S 0 1 9474 - 0,0,0,0,0,-,-", "C 1 1", "W",
+					"S 2 1 100 - 0,0,0,0,0,-,-", "W", "N", "S 0 0 101 - 0,0,0,0,0,-,-", "C -1 -1", "W"}
+				g.Emit("draw %s 0 5 2 %s", withVariant(tok+cs), strings.Join(ops, "; "))
+			}
+		}
+	}
+}
+
 func genDrawMatrix(g *h.Gen) {
+	genDrawPadding(g)
 	for _, name := range ecmaEntries() {
 		for tc := 0; tc < 2; tc++ {
 			var ops []string
@@ -1250,7 +1393,8 @@ func genDrawWideCover(g *h.Gen) {
 						under, ust = ' ', d
 					}
 					var ops []string
-					S := func(x, m int, st string) { ops = append(ops, fmt.Sprintf("S %d %d %d - %s", x, y, m, st)) }
+					route := 0 // the stores of frame 3 go through SetContent(nil) / SetContent([]rune{}) / SetCell in rotation
+					S := func(x, m int, st string) { ops = append(ops, drawStoreOp(route, x, y, m, nil, st)) }
 					if variant == "clear-blank" {
 						ops = append(ops, "F 32 "+d)
 					}
@@ -1274,6 +1418,7 @@ func genDrawWideCover(g *h.Gen) {
 					if lx >= 0 {
 						ops = append(ops, fmt.Sprintf("L %d %d 1 1 1", lx, y))
 					}
+					route = n + pass
 					switch variant {
 					case "fill-same":
 						ops = append(ops, fmt.Sprintf("F %d %s", under, ust))
@@ -1428,6 +1573,61 @@ func genDrawLockHistories(g *h.Gen) {
 	}
 }
 
+// drawStoreOp renders one store of (main, comb, style) at (x,y) through one of the routes the public API offers:
+//   0  SetContent with a nil combining slice for the empty list        (`S … - …`)
+//   1  SetContent with an empty slice that is not nil                  (`S … = …`)
+//   2  Screen.SetCell(x, y, style, main, comb…)                        (`SC …`)
+// The stored content is the same list of runes on every route (the property speaks of "rune, combining runes or style").
+func drawStoreOp(route, x, y, m int, comb []int, st string) string {
+	switch route % 3 {
+	case 2:
+		rs := []string{strconv.Itoa(m)}
+		for _, c := range comb {
+			rs = append(rs, strconv.Itoa(c))
+		}
+		return fmt.Sprintf("SC %d %d %s %s", x, y, st, strings.Join(rs, " "))
+	case 1:
+		return fmt.Sprintf("S %d %d %d %s %s", x, y, m, showComb(comb, true), st)
+	}
+	return fmt.Sprintf("S %d %d %d %s %s", x, y, m, h.ShowIntList(comb), st)
+}
+
+// genDrawRestoreIdentical: C13 "including sets that re-store identical content": a cell (narrow / wide / with combining
+// runes, first / last column) is painted through one route of the API and stored again, unchanged, through every route
+// (drawStoreOp), then shown, stored again, shown twice.  No Show after the first may write anything.
+func genDrawRestoreIdentical(g *h.Gen) {
+	const w, hh = 5, 2
+	st := StyleF{Fg: uint64(tcell.PaletteColor(5)), Bg: uint64(tcell.PaletteColor(0))}
+	n := 0
+	var ents []string
+	for _, name := range []string{"xterm-256color", "linux", "vt220", "sun-color", "screen-256color"} {
+		if terminfo.VerifEntries()[name] != nil {
+			ents = append(ents, name)
+		}
+	}
+	for _, cell := range []struct {
+		m    int
+		comb []int
+	}{{'a', nil}, {0x4e16, nil}, {'e', []int{0x301}}, {0xe9, nil}, {' ', nil}} {
+		for _, x := range []int{0, w - 1} {
+			for first := 0; first < 3; first++ {
+				for again := 0; again < 3; again++ {
+					n++
+					name := ents[n%len(ents)]
+					y := n % hh
+					sty := []string{"0,0,0,0,0,-,-", st.String()}[(n/2)%2]
+					ops := []string{drawStoreOp(first, x, y, cell.m, cell.comb, sty), fmt.Sprintf("S %d %d 113 - %s", (x+2)%w, 1-y, sty), "W",
+						drawStoreOp(again, x, y, cell.m, cell.comb, sty), "W",
+						drawStoreOp(again+1, x, y, cell.m, cell.comb, sty), drawStoreOp(again, x, y, cell.m, cell.comb, sty), "W", "W"}
+					cols := map[uint64]bool{st.Fg: true, st.Bg: true}
+					ops = append(ops, fitOps(name, cols)...)
+					g.Emit("draw %s %d %d %d %s", withVariant(name), n%2, w, hh, strings.Join(ops, "; "))
+				}
+			}
+		}
+	}
+}
+
 // genDrawRevisit: a cell is painted, then stored again with exactly ONE component minimally changed — one combining rune
 // replaced (same count), the list reordered, shortened or extended, one style field (MutateStyle), the primary rune, or
 // nothing at all — and shown again, then an idle Show.  Redraw shortcuts that compare or alias the remembered content
@@ -1453,7 +1653,8 @@ func genDrawRevisit(g *h.Gen) {
 		var ops []string
 		set := func(m int, c []int, f StyleF) {
 			cols[f.Fg], cols[f.Bg], cols[f.UlColor] = true, true, true
-			ops = append(ops, fmt.Sprintf("S %d %d %d %s %s", x, y, m, h.ShowIntList(c), f))
+			// through SetContent with a nil / an empty non-nil combining slice, or through SetCell (drawStoreOp)
+			ops = append(ops, drawStoreOp(r.Intn(3), x, y, m, c, f.String()))
 		}
 		set(main, comb, st)
 		ops = append(ops, "W")
@@ -1492,6 +1693,7 @@ func genDrawRevisit(g *h.Gen) {
 
 func genDraw(g *h.Gen) {
 	genDrawMatrix(g)
+	genDrawRestoreIdentical(g)
 	genDrawRevisit(g)
 	genDrawLockedWide(g)
 	genDrawWideCover(g)
@@ -1533,7 +1735,11 @@ func genDraw(g *h.Gen) {
 						comb = append(comb, h.Pick(r, drawComb))
 					}
 				}
-				ops = append(ops, fmt.Sprintf("S %d %d %d %s %s", x, y, m, h.ShowIntList(comb), drawStyle(r)))
+				route := 0
+				if r.Chance(30) {
+					route = r.Range(1, 2)
+				}
+				ops = append(ops, drawStoreOp(route, x, y, m, comb, drawStyle(r).String()))
 			case k < 49:
 				fr := h.Pick(r, []int{' ', '.', 'x', 0x2500})
 				if r.Chance(12) { // Fill is one more way to supply primary cell content (C09): controls, zero-width, format, invalid
@@ -1723,6 +1929,6 @@ func init() {
 		Rule: "every code point (quick: all below U+3000, every 61st above, boundary values; thorough: all 0x110000) and out-of-range rune values as primary cell content in the first, a middle and the last column; UTF-8 and ISO8859-1 locales; the same through Fill, one rune per 3x1 screen (quick: all below U+0370, the format/control blocks, boundary and out-of-range values; thorough: all below U+3000, every zero-width or must-be-blank code point, every 61st); plus base x combining-mark cells in UTF-8 and five 8-bit charsets (SUB-answering and error-answering charmaps); 12 cells per case; every case is non-trivial",
 		Gen:  genDrawCP, Exec: execDraw})
 	h.Register(&h.Engine{Name: "draw",
-		Rule: "a fixed attribute/underline/colour/hyperlink matrix and a colour sweep (fg, bg, underline colour over all of palette 0..15, 22 indices of 16..255, 16 direct colours) for every ECMA-family entry x direct colour on/off; directed histories: wide rune beside a locked cell, a column covered by a wide rune and uncovered again by Fill / Clear / another wide rune / a narrow store, stores of identical and different content into the hidden column, lock regions locked twice / overlapping / never locked / re-locked / partly unlocked; then random draw histories (4-36 ops) on a real terminfo screen over a fake tty, every ECMA-family entry, direct colour on/off, sizes 2..7 x 1..4; distinct = distinct line; non-trivial = at least one in-range SetContent",
+		Rule: "fixed cases on every ECMA entry that carries padding, as it is and with every terminfo(5) padding form; stores go through SetContent (nil or empty non-nil combining slice) or Screen.SetCell; a fixed attribute/underline/colour/hyperlink matrix and a colour sweep (fg, bg, underline colour over all of palette 0..15, 22 indices of 16..255, 16 direct colours) for every ECMA-family entry x direct colour on/off; directed histories: wide rune beside a locked cell, a column covered by a wide rune and uncovered again by Fill / Clear / another wide rune / a narrow store, stores of identical and different content into the hidden column, lock regions locked twice / overlapping / never locked / re-locked / partly unlocked, identical content re-stored through every store route; then random draw histories (4-36 ops) on a real terminfo screen over a fake tty, every ECMA-family entry, direct colour on/off, sizes 2..7 x 1..4; distinct = distinct line; non-trivial = at least one in-range SetContent",
 		Gen:  genDraw, Exec: execDraw})
 }
